@@ -295,20 +295,31 @@ func verifProduce(p verifProfile) *verifDoc {
 			}
 			split := len(body) / 2
 			_, err1 := ws.Write(body[:split])
-			var deferred *verifExpObj
-			if verifrt.Choice("putinside", 2) == 1 {
+			var deferred []verifExpObj
+			var deferredStm []verifExpStm
+			switch verifrt.Choice("putinside", 3) {
+			case 1:
 				r2 := w.Alloc()
 				o2 := Object(Array{Integer(7), String("in")})
 				verifrt.Assert(w.Put(r2, o2) == nil, "Put during open stream is deferred")
-				deferred = &verifExpObj{r2, o2}
+				deferred = append(deferred, verifExpObj{r2, o2})
+			case 2:
+				// several deferred objects, one of them a stream object
+				r2, r3, r4 := w.Alloc(), w.Alloc(), w.Alloc()
+				o2, o4 := Object(Integer(7)), Object(Name("after"))
+				inner := []byte("inner stream")
+				verifrt.Assert(w.Put(r2, o2) == nil, "Put during open stream is deferred")
+				verifrt.Assert(w.Put(r3, NewStream(Dict{"Kind": Name("S")}, inner)) == nil, "Put of a stream object during open stream is deferred")
+				verifrt.Assert(w.Put(r4, o4) == nil, "Put during open stream is deferred")
+				deferred = append(deferred, verifExpObj{r2, o2}, verifExpObj{r4, o4})
+				deferredStm = append(deferredStm, verifExpStm{r3, inner})
 			}
 			_, err2 := ws.Write(body[split:])
 			err3 := ws.Close()
 			verifrt.Assert(err1 == nil && err2 == nil && err3 == nil, "stream writes succeed")
 			doc.stms = append(doc.stms, verifExpStm{ref, body})
-			if deferred != nil {
-				doc.objs = append(doc.objs, *deferred)
-			}
+			doc.objs = append(doc.objs, deferred...)
+			doc.stms = append(doc.stms, deferredStm...)
 		}
 	}
 	doc.title = "T(1)"
